@@ -116,20 +116,25 @@ def make_main(prog):
         handler = H()
 
         def fs_activity():
-            # something for the emitters to report (and, optionally, the root vanishes)
-            tm.sleep(0.5)
+            # something for the emitters to report (and, optionally, the root vanishes); the delays are part of the
+            # program so that the activity can also race with the API calls and with the final stop()
+            d1 = prog.get("fs_delay", 0.5)
+            d2 = prog.get("vanish_delay", 0.5)
+            if d1:
+                tm.sleep(d1)
             if kind == "inotify":
                 try:
                     k.op_create(b"/w/f1")
                 except OSError:
                     pass
                 if prog.get("root_vanishes"):
-                    tm.sleep(0.5)
+                    if d2:
+                        tm.sleep(d2)
                     k.op_rmtree_root(b"/w")
             elif kind == "polling":
                 v.tree["b"] = ("f", 3, 1, 0, 0)
                 if prog.get("root_vanishes"):
-                    tm.sleep(1.5)
+                    tm.sleep(d2 + 1.0)
                     v.tree.clear()
 
         ts = [th.Thread(target=lambda seq=seq, i=i: [do_call(f, f"app{i}") for f in seq], name=f"app{i}") for i, seq in enumerate(prog["threads"][1:], 1)]
@@ -141,10 +146,13 @@ def make_main(prog):
             do_call(f, "app0")
         for t in ts:
             t.join()
-        fs.join()
-        tm.sleep(3.0)
+        settle = prog.get("settle", 3.0)
+        if settle:
+            fs.join()
+            tm.sleep(settle)
         do_call(["stop"], "main")
         do_call(["join"], "main")
+        fs.join()
         return k
 
     return main
@@ -190,8 +198,8 @@ def check(prog, r, s):
 ALPHA = [["start"], ["schedule", 0], ["schedule", 1], ["unschedule", 0], ["unschedule_all"], ["stop"]]
 
 
-def P(emitter, threads, reentrant=None, root_vanishes=False):
-    return {"emitter": emitter, "threads": threads, "reentrant": reentrant, "root_vanishes": root_vanishes}
+def P(emitter, threads, reentrant=None, root_vanishes=False, fs_delay=0.5, vanish_delay=0.5, settle=3.0):
+    return {"emitter": emitter, "threads": threads, "reentrant": reentrant, "root_vanishes": root_vanishes, "fs_delay": fs_delay, "vanish_delay": vanish_delay, "settle": settle}
 
 
 FIXED = [
@@ -203,6 +211,9 @@ FIXED = [
     P("scripted", [[["start"], ["schedule", 0]], [["stop"], ["stop"]]], reentrant=["schedule", 1]),
     P("polling", [[["schedule", 0], ["start"]], [["stop"]]], root_vanishes=True),
     P("inotify", [[["start"], ["schedule", 0], ["stop"]], [["schedule", 1], ["unschedule", 0]]]),
+    # the root disappears while stop() is under way (nothing settles in between)
+    P("inotify", [[["schedule", 0], ["start"]]], root_vanishes=True, fs_delay=0.0, vanish_delay=0.0, settle=0.0),
+    P("inotify", [[["schedule", 0], ["start"]], [["unschedule", 0]]], root_vanishes=True, fs_delay=0.0, vanish_delay=0.0, settle=0.0),
 ]
 
 
@@ -216,6 +227,9 @@ def programs(draw):
         [t0, t1],
         reentrant=draw(st.one_of(st.none(), call)),
         root_vanishes=draw(st.sampled_from([False, False, True])),
+        fs_delay=draw(st.sampled_from([0.0, 0.5])),
+        vanish_delay=draw(st.sampled_from([0.0, 0.5])),
+        settle=draw(st.sampled_from([0.0, 3.0, 3.0])),
     )
 
 
